@@ -153,7 +153,10 @@ def obligations(tier, seed):
         want = 24 if tier == "quick" else 60
         n = len(range(0, nall, max(1, nall // want)))
         chunk = 3 if tier == "quick" else 4
+        has_marks = any(len(t) > 2 and t[0] == "t" and t[2] for t in C_.tok)
         for kind in kinds:
+            if kind == "remove_mark" and not has_marks:
+                continue                     # nothing to remove anywhere in this template: every partition would be vacuous
             nx = ops.xrange_of(C_, kind)
             q = dict(p, kind=kind, nx=want)
             if tier == "quick" and nx > 2:
